@@ -177,6 +177,8 @@ namespace {
         B_ARRIVE_AND_WAIT = 0,
         B_ARRIVE_THEN_WAIT = 1,    // token = arrive(); yields; wait(token)
         B_DROP = 2,                // arrive_and_drop, participant leaves
+        B_DELEGATE = 3,            // does not arrive in this phase itself: another participant arrives for both
+                                   // (arrive(update) with update > 1) and this one only waits for the phase to end
     };
     struct BarrierState
     {
@@ -228,12 +230,12 @@ namespace {
                 Op op;
                 op.v[0] = (int64_t) r.below((uint64_t) n);
                 op.v[1] = (int64_t) r.below((uint64_t) phases);
-                op.v[2] = r.chance(1, 5) ? B_DROP : B_ARRIVE_THEN_WAIT;
+                op.v[2] = r.chance(1, 5) ? B_DROP : r.chance(1, 5) ? B_DELEGATE : B_ARRIVE_THEN_WAIT;
                 op.v[3] = r.range(0, 3);
                 // the optional busy-wait timeout of wait/arrive_and_wait: spin for that long before blocking
                 // (0: none; 1-3: shorter and longer than the time the others take to arrive)
                 if (r.chance(1, 3)) op.v[4] = (int64_t) r.range(1, 3);
-                if (op.v[4] && r.chance(1, 2)) op.v[2] = B_ARRIVE_AND_WAIT;
+                if (op.v[4] && r.chance(1, 2) && op.v[2] != B_DELEGATE) op.v[2] = B_ARRIVE_AND_WAIT;
                 p.push_back(op);
             }
             ctx.program = p;
@@ -255,12 +257,30 @@ namespace {
         BS.arrived.assign((size_t) phases, 0);
         BS.expected.assign((size_t) phases, 0);
         BS.departed.assign((size_t) phases, 0);
+        std::vector<std::vector<int>> update((size_t) n, std::vector<int>((size_t) phases, 1));
         {
             std::vector<bool> gone((size_t) n, false);
             int alive = n;
             for (int k = 0; k < phases; k++)
             {
                 BS.expected[(size_t) k] = alive;
+                // delegations: the first other participant that arrives itself in this phase carries the arrival
+                for (int i = 0; i < n; i++)
+                {
+                    if (action[(size_t) i][(size_t) k] != B_DELEGATE) continue;
+                    int carrier = -1;
+                    for (int j = 0; j < n && carrier < 0; j++)
+                        if (j != i && !gone[(size_t) j] && action[(size_t) j][(size_t) k] != B_DELEGATE &&
+                            action[(size_t) j][(size_t) k] != B_DROP)
+                            carrier = j;
+                    if (gone[(size_t) i] || carrier < 0)
+                        action[(size_t) i][(size_t) k] = B_ARRIVE_AND_WAIT;
+                    else
+                    {
+                        update[(size_t) carrier][(size_t) k]++;
+                        if (action[(size_t) carrier][(size_t) k] == B_ARRIVE_AND_WAIT) action[(size_t) carrier][(size_t) k] = B_ARRIVE_THEN_WAIT;
+                    }
+                }
                 for (int i = 0; i < n; i++)
                 {
                     if (gone[(size_t) i]) continue;
@@ -290,7 +310,7 @@ namespace {
         static Parties P;
         std::vector<int> kinds;
         for (int i = 0; i < n; i++) kinds.push_back((os_mask >> i) & 1 ? PARTY_OS : PARTY_TASK);
-        P.launch(kinds, [kinds, action, yields, busy, phases](int me) {
+        P.launch(kinds, [kinds, action, yields, busy, update, phases](int me) {
             int kind = kinds[(size_t) me];
             for (int k = 0; k < phases; k++)
             {
@@ -298,7 +318,19 @@ namespace {
                 std::chrono::duration<double> const bw(busy[(size_t) me][(size_t) k]);
                 if (bw.count() > 0) probe("barrier.busy_wait_timeout");
                 yield_here(kind, yields[(size_t) me][(size_t) k] & 1);
-                BS.arrived[(size_t) k]++;
+                if (a == B_DELEGATE)
+                {
+                    // somebody else arrives for this participant; it must not go on to the next phase before this one
+                    // is over, i.e. before a participant that waited has left it (the completion function runs before
+                    // the barrier switches to the next phase: an arrival right after it would still count for this one)
+                    // (polls by yielding like barrier::wait itself does; parking and being resumed by another thread
+                    // would queue this task where the yielding waiters starve it - C01's known finding)
+                    while (BS.departed[(size_t) k] == 0) yield_here(kind, 1);
+                    probe("barrier.delegated_arrival");
+                    continue;
+                }
+                int const upd = update[(size_t) me][(size_t) k];
+                BS.arrived[(size_t) k] += upd;
                 ev(10 + a, me, k);
                 if (a == B_DROP)
                 {
@@ -308,7 +340,7 @@ namespace {
                 }
                 if (a == B_ARRIVE_THEN_WAIT)
                 {
-                    auto tok = bar.arrive();
+                    auto tok = bar.arrive((std::ptrdiff_t) upd);
                     yield_here(kind, yields[(size_t) me][(size_t) k]);
                     bar.wait(std::move(tok), bw);
                     probe("barrier.arrive_then_wait");
